@@ -41,7 +41,7 @@ def main():
             "engine": "sa",
             "level_claimed": {"category": "other", "text": "Static analysis deciding structural necessary conditions of the property on /repo's current source (holds for every input because it is a fact about the code, not about a sample): " + text, "design_ref": f"DESIGN.md section 5, {p}"},
             "level_note": "Trusted: python ast/tomllib; the checker's reference tables (C grammar, scanner automata, argparse option matching); pathspec/argparse/numpy/os.path behave as documented; duck-typed calls resolve to every package class defining the method. Decides the named structural clauses, not the run-time behaviour.",
-            "technique": "static analysis: " + tech,
+            "technique": "static analysis: " + tech + "; contracts stated over extracted decision tables (atoms -> effects -> result rows) of the functions behind the property; comparison of those tables with the reviewed snapshot (RX: dropped / widened effects, replaced / moved conditions, changed operands)",
         })
     allp = [f"C{i:02d}" for i in range(1, 19)]
     na = [{"property_id": p, "reason": "check not built yet in this session (planned, see DESIGN.md section 5)"} for p in allp if p not in props]
